@@ -91,6 +91,8 @@ func energyValueRule(c *an.Ctx, fn *ssa.Function) {
 		for _, in := range b.Instrs {
 			if call, ok := in.(*ssa.Call); ok && an.CalleeName(&call.Call) == "strconv.ParseFloat" {
 				reading = fi.FieldlessExtract(call, 0)
+				bs, isC := fi.Term(call.Call.Args[1]).IsConst()
+				c.Check(isC && bs == "64", "PRED", fn, call.Pos(), an.KeyOf(fn, "reading-precision"), "the reading is parsed with bitSize 64 (no rounding to float32 before the rules are applied)", "bitSize "+bs)
 			}
 		}
 	}
@@ -299,6 +301,9 @@ func calibrationRule(c *an.Ctx, fn *ssa.Function) {
 			if vt.K == an.KExt && vt.S == "0" && vt.A[0].Callee() == "strconv.ParseFloat" {
 				// the Text() call that produced the argument
 				if pc, ok := vt.A[0].Val.(*ssa.Call); ok {
+					// full precision: bitSize 64 (a 32-bit parse rounds the setting to float32)
+					bs, isC := fi.Term(pc.Call.Args[1]).IsConst()
+					c.Check(isC && bs == "64", "PRED", fn, pc.Pos(), an.KeyOf(fn, "calibration-precision:"+fieldNameOf(fa)), fieldNameOf(fa)+" is parsed with bitSize 64: the setting is read exactly as written (to float64 precision)", "bitSize "+bs)
 					if tc, ok := pc.Call.Args[0].(*ssa.Call); ok && an.CalleeName(&tc.Call) == "(*bufio.Scanner).Text" {
 						okShape = true
 						nScans = 0
